@@ -25,7 +25,8 @@
    PREFIX MODE is modelled (`Model/EarleyPrefix.lean`, theorem `C06_prefix_terminates`): for every case the recorded
    `parse_forest(word, mode=INCOMPLETE)` run of the real parser (a grammar object of its own; per column the admitted
    states — in the last column also the incomplete states and the states the forced completions add, each with its
-   `is_incomplete` flag — and the yielded trees) is compared with `parsePrefix` of the model (`judge_prefix`: states per
+   `is_incomplete` flag; the last column before the final shortcut with the `cut_short` flags of the source that has
+   them — and the yielded trees) is compared with `parsePrefix` of the model (`judge_prefix`: states per
    column as multisets, yielded trees as a multiset; a request abandoned after `max_trees` = 300 trees is compared at
    that point: the model is stopped after as many yields).  The second regex oracle (`regex` module, partial matching)
    is computed by the harness independently of fandango.  A prefix request over the step limit is decided by the
@@ -415,6 +416,27 @@ def judge_prefix(run: Run, t: dict, r: dict, pp: Optional[dict], corr_failures: 
                               f"(model has {len(mcols)} columns)",
                               "model_only": [x for x in a if x not in b][:3], "real_only": [x for x in b if x not in a][:3]})
         return
+    # `ParseState.cut_short` (the variant key `cutShort`; absent from the source before the repair of C19:F68): the last
+    # column as the end-of-input pass left it — before the final shortcut — every state with its `is_incomplete` and
+    # `cut_short` flag (multiset); no state of an earlier column is marked
+    if int(rec.get("marked_before_last", 0)):
+        corr_failures.append({"case": case, "what": f"prefix request: {rec['marked_before_last']} states of columns before "
+                              "the last are marked cut_short (the model marks states of the end-of-input pass only)"})
+        return
+    if rec.get("lastB") is not None and pp.get("lastB") is not None:
+        mb, rb = eio.canon_cols([pp["lastB"]])[0], eio.canon_cols([rec["lastB"]])[0]
+        if mb != rb:
+            corr_failures.append({"case": case, "what": "prefix request: the last column before the final shortcut differs "
+                                  "(states with their is_incomplete / cut_short flags)",
+                                  "model_only": [x for x in mb if x not in rb][:3], "real_only": [x for x in rb if x not in mb][:3]})
+            return
+        run.count("corr:prefix_lastB_equal")
+        if any(s[-1] for s in rec["lastB"]):
+            run.count("corr:prefix_equal_with_cut_short_states")
+        if int(pp.get("skipped", 0)):
+            run.count("corr:prefix_equal_with_skipped_completions")
+    elif pst == "ok":
+        run.count("corr:prefix_lastB_not_recorded")
     mf, rf = eio.canon_forest(pp["forest"]), eio.canon_forest(rec["forest"])
     if pst == "ok" and int(pp["nforest"]) != len(rec["forest"]):
         corr_failures.append({"case": case, "what": f"prefix request: real yields {len(rec['forest'])} trees, model {pp['nforest']}"})
@@ -638,6 +660,11 @@ def judge(run: Run, tasks: list[dict], reals: list[dict], core: list, pol: list,
             corr_failures.append({"case": replay_dict(t), "what": f"real {st}, model {mp['status']}"})
             continue
         if st == "ok":
+            if int(r.get("marked", 0)):
+                # `C06_cut_short_irrelevant_in_complete_mode`: the model of COMPLETE mode has no `cut_short`
+                corr_failures.append({"case": replay_dict(t), "what": f"COMPLETE mode: {r['marked']} states are marked "
+                                      "cut_short (the model: none ever is)"})
+                continue
             mcols, rcols = eio.canon_cols(mp["cols"]), eio.canon_cols(r["cols"])
             if mcols != rcols:
                 k = next((i for i, (a, b) in enumerate(zip(mcols, rcols)) if a != b), -1)
@@ -829,7 +856,7 @@ def main(tier: str) -> int:
     # model finishes and the real parser does not is the concrete violation
     policy = info["policy"] or "acyclic"
     variant = info.get("variant") or {"policy": policy, "cap": None, "predDone": True, "aligned": True,
-                                      "wideGuard": True, "emptyRegex": True}
+                                      "wideGuard": True, "emptyRegex": True, "cutShort": bool(info.get("cut_short"))}
     run.coverage["generated_policy"] = info
     corr_failures: list = []
     undecided: list = []
